@@ -261,3 +261,26 @@ func dynamicCallOfParam(i ssa.Instruction, name string) bool {
 	}
 	return false
 }
+
+// isParamOrCaptured: v is parameter #idx of fn, either directly or read through a closure capture of it
+// (nested accessor closures capture the outer closure's byte-slice parameter by reference).
+func isParamOrCaptured(v ssa.Value, fn *ssa.Function, idx int) bool {
+	if idx >= len(fn.Params) {
+		return false
+	}
+	if isParamNamed(v, fn, idx) || resolve(v) == ssa.Value(fn.Params[idx]) {
+		return true
+	}
+	// through free variables: the access path names the parameter of the enclosing function
+	in, ok := v.(ssa.Instruction)
+	if !ok || in.Parent() == nil {
+		return false
+	}
+	inner := false
+	for p := in.Parent().Parent(); p != nil; p = p.Parent() {
+		if p == fn {
+			inner = true
+		}
+	}
+	return inner && accessPath(v) == "P:"+fn.Params[idx].Name()
+}
